@@ -697,6 +697,7 @@ func c19Static(ctx *core.Ctx) {
 func c19Run(ctx *core.Ctx) {
 	if ctx.Shard == 0 {
 		c19Static(ctx)
+		c19Skeletons(ctx)
 	}
 	c19Dynamic(ctx)
 }
@@ -705,6 +706,7 @@ func init() {
 	core.Register(&core.Check{
 		ID: "C19",
 		Rule: "(1) serialised ATNs extracted from the six generated sources (Go int arrays, TS number arrays, Java string literals) and the six .interp files, decoded by an own deserialiser; lock-step breadth-first walk of the product of the Go x JS x Java automata from every rule and mode start state comparing state kind, rule, flags, decision number and every transition (label sets compared by content), every state must be reached; each .interp against its source. " +
+			"(2b) rule-body skeletons: per rule method of the generated Go, TypeScript and Java parsers the sequence of state numbers, token matches, rule invocations, prediction decisions, alternatives and look-ahead token sets (case lists and bit masks decoded to token numbers) - 27 methods, 501 elements each - must be identical in the three packages; " +
 			"(2) rule, literal, symbolic, channel and mode names and .tokens numbering across packages and against the names declared in the two .g4 files; generated listeners complete; the hand-written Go listener names existing rules only. " +
 			"(3) grammar sentences replayed on the implementation: see the dynamic part of this check. states = product states, transitions = product transitions + replayed sentences, non-trivial = artefact groups",
 		Assume: []string{
@@ -714,7 +716,7 @@ func init() {
 		Technique: "explicit-state lock-step exploration of the product of the three generated automata plus replay of grammar-derived sentences on the generated Go parser",
 		Run:       c19Run,
 		Finish: func(r *core.Result) error {
-			for _, f := range []string{"c19:product:parser", "c19:product:lexer", "c19:vocabulary:parser", "c19:vocabulary:lexer", "c19:listeners"} {
+			for _, f := range []string{"c19:product:parser", "c19:product:lexer", "c19:vocabulary:parser", "c19:vocabulary:lexer", "c19:listeners", "c19:rule-bodies"} {
 				if !r.Flags[f] {
 					return fmt.Errorf("C19: guard %q never exercised", f)
 				}
@@ -723,6 +725,7 @@ func init() {
 		},
 		Replay: func(ctx *core.Ctx, c json.RawMessage) {
 			c19Static(ctx)
+			c19Skeletons(ctx)
 			c19Dynamic(ctx)
 		},
 	})
